@@ -163,6 +163,7 @@ def run(ctx):
                             ctx.disagree('call %d of the history differs from the state-machine model' % k, {'class': nm, 'configured': cf, 'debug': db, 'history': hist}, mine, mo)
                             break
     snapshots(ctx)
+    identity_part(ctx)
 
 
 def strip_inferred(o):
@@ -241,6 +242,11 @@ def snapshots(ctx):
                     kind, val = GG.run_impl(lambda: g(None, inp))
                     outs.append(canon(kind, val, False))
                 ctx.contract_checks += 1
+                shared = set(mutable_containers(cfg)) & set(mutable_containers(g.config))
+                if shared:
+                    ctx.violation("the grader's configuration shares a mutable object with the author's configuration object", {'scenario': name, 'form': form},
+                                  impl=[repr(mutable_containers(cfg)[i])[:80] for i in shared])
+                    break
                 if deep_repr(cfg) != before:
                     ctx.violation("construction or grading altered the author's configuration object", {'scenario': name, 'form': form}, impl=deep_repr(cfg), expected=before)
                     break
@@ -299,6 +305,119 @@ def snapshots(ctx):
             pass
         if (vs, fs, sf) != b:
             ctx.violation('evaluator mutated the scope handed to it', {'s': s})
+
+
+# ---------------------------------------------------------------- object identity: coerce2unicode and the negative-power switch
+class Opaque(object):
+    pass
+
+
+def gen_obj(rng, depth):
+    r = rng.random()
+    if depth <= 0 or r < 0.3:
+        return rng.choice(['a', 'b', 'x+1', '', 'ünï']) if rng.random() < 0.8 else Opaque()
+    k = rng.randint(0, 3)
+    if r < 0.55:
+        return [gen_obj(rng, depth - 1) for _ in range(k)]
+    if r < 0.8:
+        return tuple(gen_obj(rng, depth - 1) for _ in range(k))
+    return {'k%d' % i: gen_obj(rng, depth - 1) for i in range(k)}
+
+
+def pv_json(x, ids, fresh_base=None, counter=None):
+    """value with identities: containers already in `ids` keep their number; others are numbered fresh_base, fresh_base+1, ... in preorder"""
+    def num(o):
+        if id(o) not in ids:
+            if fresh_base is None:
+                ids[id(o)] = len(ids)
+            else:
+                ids[id(o)] = fresh_base + counter[0]; counter[0] += 1
+        return ids[id(o)]
+    if isinstance(x, str):
+        return ['atom', x]
+    if isinstance(x, list):
+        n = num(x)
+        return ['list', n, [pv_json(i, ids, fresh_base, counter) for i in x]]
+    if isinstance(x, dict):
+        n = num(x)
+        return ['dict', n, [[k, pv_json(v, ids, fresh_base, counter)] for k, v in x.items()]]
+    if isinstance(x, tuple):
+        return ['tuple', [pv_json(i, ids, fresh_base, counter) for i in x]]
+    return ['opaque', num(x)]
+
+
+def mutable_containers(x, acc=None, through_objects=False):
+    acc = acc if acc is not None else {}
+    if isinstance(x, (list, dict)):
+        if id(x) in acc:
+            return acc
+        acc[id(x)] = x
+        for v in (x.values() if isinstance(x, dict) else x):
+            mutable_containers(v, acc)
+    elif isinstance(x, tuple):
+        for v in x:
+            mutable_containers(v, acc)
+    return acc
+
+
+def identity_part(ctx):
+    from mitxgraders.baseclasses import ObjectWithSchema
+    from mitxgraders.helpers.calc.math_array import MathArray
+    from mitxgraders import MatrixGrader
+    rng = ctx.rng
+    asks, meta = [], []
+    for it in range(ctx.scale(300, 4000)):
+        obj = gen_obj(rng, rng.randint(1, 4))
+        ids = {}
+        jin = pv_json(obj, ids)
+        n = len(ids)
+        out = ObjectWithSchema.coerce2unicode(obj)
+        jout = pv_json(out, dict(ids), fresh_base=n, counter=[0])
+        shared = set(mutable_containers(obj)) & set(mutable_containers(out))
+        case = {'part': 'coerce2unicode', 'value': jin}
+        if shared:
+            ctx.violation("the configuration copy shares a mutable object with the author's value", case, impl=jout)
+        if out != obj:
+            ctx.violation("the configuration copy differs in value from the author's object", case, impl=jout)
+        ctx.case({'value': jin}, nontrivial_key=repr(jin) if len(mutable_containers(obj)) >= 2 else None, kind='coerce')
+        asks.append({'op': 'coerce', 'value': jin, 'next': n}); meta.append((case, jout))
+    if ctx.driver:
+        for (case, jout), o in zip(meta, ctx.driver.ask_many(asks)):
+            if o.get('out') != jout:
+                ctx.disagree('coerce2unicode: identities/shape of the copy differ from the object-identity model', case, jout, o.get('out'))
+    # the negative-power switch through histories of MatrixGrader calls, returning and raising
+    seen = []
+
+    def probe(x):
+        seen.append(MathArray._negative_powers)
+        return x
+    graders = {True: MatrixGrader(answers='probe(1)*[[1,2],[3,4]]', user_functions={'probe': probe}, negative_powers=True),
+               False: MatrixGrader(answers='probe(1)*[[1,2],[3,4]]', user_functions={'probe': probe}, negative_powers=False)}
+    inputs_ok = ['probe(1)*[[1,2],[3,4]]', '[[1,2],[3,4]]^2*probe(0)']
+    inputs_raise = ['probe(1)*[[1,2],[3,4]]+[1,2]', 'probe(1)*[[1,2],[3,4]]^-1', 'probe(1)+', 'probe(1)/0']
+    asks, meta = [], []
+    for it in range(ctx.scale(40, 400)):
+        calls, impl = [], []
+        for _ in range(rng.randint(1, 8)):
+            cfg = rng.random() < 0.5
+            raises = rng.random() < 0.5
+            inp = rng.choice(inputs_raise if raises else inputs_ok)
+            del seen[:]
+            kind, val = GG.run_impl(lambda: graders[cfg](None, inp))
+            inside = set(seen)
+            if inside and inside != {cfg}:
+                ctx.violation('inside a MatrixGrader call the negative-power switch is not the configured value', {'part': 'negative_powers', 'cfg': cfg, 'input': inp}, impl=sorted(inside))
+            after = MathArray._negative_powers
+            if after is not True:
+                ctx.violation('the negative-power switch was left changed after a call', {'part': 'negative_powers', 'cfg': cfg, 'input': inp, 'outcome': kind}, impl=after)
+                MathArray._negative_powers = True
+            calls.append([cfg, kind == 'err']); impl.append([cfg, after])
+        ctx.case({'calls': calls}, nontrivial_key=('np', repr(calls)) if any(c[1] for c in calls) else None, kind='negative_powers')
+        asks.append({'op': 'np_hist', 'calls': calls}); meta.append((calls, impl))
+    if ctx.driver:
+        for (calls, impl), o in zip(meta, ctx.driver.ask_many(asks)):
+            if o.get('out') != impl:
+                ctx.disagree('negative-power switch history differs from the model', {'part': 'negative_powers', 'calls': calls}, impl, o.get('out'))
 
 
 def search(ctx):
